@@ -222,6 +222,38 @@ def run_e1_property(prop, tier, harness_module, log=print):
     for ln in known_lines:
         log(ln)
 
+    e2 = None
+    e2_violations, e2_errors = [], []
+    if meta.get('E2'):
+        e2out = os.path.join(workdir, 'e2.json')
+        p = subprocess.run(
+            [bootstrap.ensure(), '-m', harness_module, '--e2', tier, e2out],
+            cwd=VERIF, env=child_env(VERIF_MODE='replay'),
+            capture_output=True, text=True, timeout=7200)
+        if not os.path.exists(e2out):
+            log('HARNESS-ERROR: E2 stage produced nothing: ' +
+                (p.stdout + p.stderr)[-3000:])
+            return EXIT_HARNESS
+        e2 = json.load(open(e2out))
+        for q in e2['queries']:
+            log('  E2 %-6s %6.2fs %s%s' % (
+                q['result'], q['solver_s'], q['name'],
+                ('  witness=%r' % q['witness']) if q.get('witness')
+                is not None else ''))
+        e2_errors = list(e2.get('harness_errors', []))
+        for v in e2.get('violations', []):
+            j = Job(harness_module, v['function'], None, 0, 0, 'CONFIRMED',
+                    'E2 query: ' + v['query'], ())
+            j.record = {'args': v['args'], 'message': v['query'],
+                        'verdict': 'REFUTED', 'paths': 0, 'smt_queries': 0,
+                        'solver_s': 0.0, 'cpu_s': 0.0}
+            rep, info = replay(j.module, j.function, v['args'])
+            if rep:
+                e2_violations.append((j, write_replay_file(prop, j, info),
+                                      info))
+            else:
+                e2_errors.append('E2 witness does not replay: %r' % (v,))
+
     jobs = []
     for c in meta['CONDITIONS']:
         budget = c.get(tier)
@@ -289,6 +321,7 @@ def run_e1_property(prop, tier, harness_module, log=print):
         elif r['verdict'] != 'CONFIRMED':
             inconclusive.append(j)
 
+    violations.extend(e2_violations)
     main_jobs = [j for j in jobs if j.expect == 'CONFIRMED']
     confirmed = [j for j in main_jobs if j.record['verdict'] == 'CONFIRMED']
     paths = sum(j.record['paths'] for j in jobs)
@@ -303,10 +336,13 @@ def run_e1_property(prop, tier, harness_module, log=print):
                         'args': j.record['args'], 'replay': path})
     coverage = {
         'states': max(paths, 1),
-        'transitions': max(smt, 1),
+        'transitions': max(smt + (len(e2['queries']) if e2 else 0), 1),
         'traces_validated_against_impl': replays_ok + len(violations),
         'samples': samples or [{'note': 'no condition finished'}],
-        'exhaustive': bool(main_jobs) and len(confirmed) == len(main_jobs),
+        'exhaustive': (bool(main_jobs) or e2 is not None)
+        and len(confirmed) == len(main_jobs)
+        and (e2 is None or all(q['result'] == q['expect']
+                               for q in e2['queries'])),
         'explanation': (
             'states = execution paths explored by CrossHair over the real '
             'yatiml code (each ends in a distinct symbolic state); '
@@ -329,6 +365,17 @@ def run_e1_property(prop, tier, harness_module, log=print):
         'conditions_confirmed': len(confirmed),
         'conditions_inconclusive': [j.name for j in inconclusive],
         'solver_time_s': round(solver_s, 2),
+        'e2': None if e2 is None else {
+            'engine': 'z3 (python API) string/regex theory over the live '
+                      'resolver tables; thorough tier cross-checks each '
+                      'query with the cvc5 binary',
+            'queries': e2['queries'],
+            'queries_total': len(e2['queries']),
+            'queries_as_expected': sum(1 for q in e2['queries']
+                                       if q['result'] == q['expect']),
+            'solver_s': round(sum(q['solver_s'] for q in e2['queries']), 2),
+            'validation': e2.get('validation'),
+            'cvc5': e2.get('cvc5')},
         'known_findings_reported': known_lines,
         'regions_assumed_away': exclude,
         'repo': repo_state(),
@@ -343,6 +390,13 @@ def run_e1_property(prop, tier, harness_module, log=print):
         return EXIT_HARNESS
     shutil.rmtree(workdir, ignore_errors=True)
 
+    if e2 is not None:
+        for q in e2['queries']:
+            if q['result'] not in ('sat', 'unsat'):
+                log('inconclusive: E2 query "%s" is %s -- not counted as '
+                    'held' % (q['name'], q['result']))
+        for m in e2_errors:
+            log('HARNESS-ERROR: ' + m)
     for j in inconclusive:
         log('inconclusive: %s (%s) -- not counted as held' % (
             j.name, j.record['message'][:200]))
@@ -364,7 +418,7 @@ def run_e1_property(prop, tier, harness_module, log=print):
            len(violations), paths, smt, solver_s, time.time() - t0))
     if violations:
         return EXIT_VIOLATION
-    if harness_errors or vacuous:
+    if harness_errors or vacuous or e2_errors:
         return EXIT_HARNESS
     return EXIT_OK
 
@@ -377,7 +431,7 @@ def harness_meta(harness_module):
         'import json, importlib\n'
         'm = importlib.import_module(%r)\n'
         'print("META " + json.dumps({k: getattr(m, k, []) for k in '
-        '("CONDITIONS", "ENCODED", "ASSUMPTIONS")}))\n' % harness_module)
+        '("CONDITIONS", "ENCODED", "ASSUMPTIONS", "E2")}))\n' % harness_module)
     p = subprocess.run([py, '-c', code], cwd=VERIF, env=child_env(
         VERIF_MODE='replay'), capture_output=True, text=True, timeout=300)
     for ln in p.stdout.splitlines():
